@@ -68,6 +68,46 @@ def gen(ctx):
     for sa, sb in (("1", "2"), ("2", "1"), ("1.2", "3.4"), ("3", "3"), ("1", "2.3")):
         for la, lb in ((20, 20), (20, 21)):
             add("signseq %s %s %s %s" % (sa, sb, hexs(r.bytes(la)), hexs(r.bytes(lb))), "signseq:%s-%s:%s" % (len(sa.split(".")), len(sb.split(".")), "same-length" if la == lb else "other-length"))
+    # low-level writers must reproduce what the high-level interfaces wrote; PEM; data / keyAgreementInfo content
+    add("cmsrt addrcpt -", "cmsrt:addrcpt")
+    for kind in ("pem", "setdata", "kai", "signed", "env", "enc", "signenv"):
+        for size in (0, 5, 200):
+            add("cmsrt %s %s" % (kind, hexs(r.bytes(size))), "cmsrt:%s" % kind)
+    # the DER layer: every low-level writer on (pointer, length) arguments, one field varied at a time from a valid
+    # base (NULL "-", non-NULL and empty "e", short / long values, other versions, numbers outside the tables), then random mixes
+    def fv(n):
+        return hexs(r.bytes(n))
+    name = hexs(tlv(0x31, tlv(0x30, tlv(0x06, b"\x55\x04\x03") + tlv(0x0c, b"CA"))))
+    serials = ["-", "e", "01", "00", "0005", "80", "00ff", "000000", fv(20), "ff" * 20]
+    opt = ["-", "e", fv(3), fv(130)]
+    sets = ["-", "e", hexs(tlv(0x30, r.bytes(40))), hexs(tlv(0x30, r.bytes(200)))]
+    kinds = {
+        "ias": [[name, "-", "e", fv(130)], serials],
+        "si": [["1", "0", "2"], [name, "-", "e"], serials, ["sm3", "undef", "bad"], opt, ["sm2sm3", "undef", "bad", "sm3"], [fv(70), "-", "e", fv(128)], opt],
+        "ri": [["1", "0", "2"], [name, "-", "e"], serials, ["sm2enc", "undef", "bad", "sm3"], [fv(110), "-", "e", fv(127), fv(128)]],
+        "da": [["sm3", "-", "sm3.sm3", "sm3.sm3.sm3.sm3", "sm3.bad", "bad", "undef", "sm3.sm2sm3"]],
+        "ci": [["1", "2", "3", "4", "5", "6", "9"], [fv(20), "-", "e", fv(0x7b), fv(0x7c), fv(300)]],
+        "sd": [["1", "0", "2"], ["sm3", "-", "sm3.sm3", "bad"], ["1", "2", "9"], [fv(20), "-", "e", fv(200)], ["-"] + sets[1:], sets, [sets[2], "-", "e", sets[3]]],
+        "ed": [["1", "0", "2"], [sets[2], "-", "e", sets[3]], ["1", "2", "9"], ["sm4cbc", "undef", "bad"], [fv(16), "-", "e", fv(15), fv(17)], [fv(32), "-", "e", fv(200)], ["-", "e", fv(5)], ["-", "e", fv(5)]],
+        "sed": [["1", "0", "2"], [sets[2], "-", "e", sets[3]], ["sm3", "-", "sm3.sm3", "bad"], ["1", "2", "9"], ["sm4cbc", "bad"], [fv(16), "-", fv(15)], [fv(32), "-", "e", fv(200)], ["-", "e", fv(5)], ["-", "e", fv(5)],
+                ["-"] + sets[1:], sets, [sets[2], "-", "e", sets[3]]],
+    }
+    for kind, dims in sorted(kinds.items()):
+        base = [d[0] for d in dims]
+        add("cmsenc %s %s" % (kind, " ".join(base)), "cmsenc:%s:base" % kind)
+        for i, d in enumerate(dims):
+            for v in d[1:]:
+                add("cmsenc %s %s" % (kind, " ".join(base[:i] + [v] + base[i + 1:])), "cmsenc:%s:one-field-varied" % kind)
+        for _ in range(40 if thorough else 12):
+            add("cmsenc %s %s" % (kind, " ".join(r.choice(d) for d in dims)), "cmsenc:%s:mixed" % kind)
+    # element lengths around 127/128 and 255/256 inside SignerInfo / RecipientInfo / SignedData
+    for n in list(range(90, 132, 3)) + list(range(225, 262, 3)):
+        add("cmsenc si 1 %s 01 sm3 - sm2sm3 %s -" % (name, fv(n)), "cmsenc:si:element-len")
+        add("cmsenc ri 1 %s 01 sm2enc %s" % (name, fv(n)), "cmsenc:ri:element-len")
+        add("cmsenc sd 1 sm3 1 %s - - %s" % (fv(n), sets[2]), "cmsenc:sd:element-len")
+    # the text renderer on every kind of message; the content-type table both ways
+    for kind in ("data", "signed", "env", "enc", "signenv", "kai", "names"):
+        add("cmsprint %s" % kind, "cmsprint:%s" % kind)
     # the same call frame opens for a recipient, then for an outsider (no key may survive from the first call)
     for rs, mem, out in (("1", 1, 2), ("1.2", 2, 3), ("2.3.4", 3, 1), ("7.8", 7, 9), ("8.7", 7, 9)):
         add("envseq %s %d %d %s" % (rs, mem, out, hexs(r.bytes(20))), "envseq:%drcpts" % len(rs.split(".")))
